@@ -37,8 +37,12 @@ import (
 	proxyproto "github.com/pires/go-proxyproto"
 	"go.minekube.com/gate/pkg/edition/java/lite"
 	"go.minekube.com/gate/pkg/edition/java/lite/config"
+	"go.minekube.com/gate/pkg/edition/java/netmc"
+	"go.minekube.com/gate/pkg/edition/java/proto/packet"
 	"go.minekube.com/gate/pkg/edition/java/proxy/verifh/e2e/litefwd"
 	"go.minekube.com/gate/pkg/edition/java/proxy/verifh/lib"
+	"go.minekube.com/gate/pkg/gate/proto"
+	"go.minekube.com/gate/pkg/util/configutil"
 )
 
 // ---- reference rewrites (independent of Gate's code) ------------------------------------------
@@ -597,8 +601,12 @@ func judge(w *worker, c tcase, o outcome) (vs []verdict, skipped string) {
 		case !matchWithTS(wantAddr, gh.Address, o.t0-2, o.t1+2):
 			sig := "rewritten-address-differs-from-reference"
 			marker := "///" + c.ClientAddr + "///"
+			prevWant, _ := refRewrite(c.Address, c.MVH, c.TS, c.FirstHost, c.ClientAddr)
 			if c.TS && strings.Count(gh.Address, marker) >= 2 {
 				sig = "tcpshield-realip-appended-per-dial-attempt"
+			} else if c.MVH && c.First != "" && matchWithTS(prevWant, gh.Address, o.t0-2, o.t1+2) {
+				// the address is what the PREVIOUS (failed) backend would have been sent
+				sig = "virtual-host-rewrite-keeps-previous-backends-host"
 			} else if c.MVH && !c.TS {
 				sig = "virtual-host-rewrite-differs-from-reference"
 			}
@@ -645,12 +653,12 @@ func TestC31(t *testing.T) {
 	n := r.N(240, 10000)
 	workers := 4
 	var (
-		mu                                                    sync.Mutex
-		optCombos                                             = map[string]int{}
-		firstKinds                                            = map[string]int{}
-		skips                                                 = map[string]int{}
+		mu                                                                               sync.Mutex
+		optCombos                                                                        = map[string]int{}
+		firstKinds                                                                       = map[string]int{}
+		skips                                                                            = map[string]int{}
 		rewritten, passthrough, exotic, pipelined, bytesC, bytesB, secondDial, ppChecked int64
-		timeouts                                              atomic.Int64
+		timeouts                                                                         atomic.Int64
 	)
 	var wg sync.WaitGroup
 	for wi := 0; wi < workers; wi++ {
@@ -748,4 +756,134 @@ func TestC31(t *testing.T) {
 	r.Set("client_to_backend_bytes_compared", bytesC)
 	r.Set("backend_to_client_bytes_compared", bytesB)
 	r.Set("watchdog_expiries", timeouts.Load())
+
+	statusPath(r)
+}
+
+// statusPath: the other caller of dialRoute. A status request through the real
+// lite.ResolveStatusResponseWithGeneration (ping cache off) with a first backend that accepts
+// but never answers (or refuses), so that a second backend is asked. The second backend must
+// receive [PROXY header iff enabled] + handshake frame (as sent, or the reference rewrite of
+// the ORIGINAL handshake) + the status request frame. Deterministic: no reset/delay needed.
+func statusPath(r *lib.Run) {
+	rng := r.Rng("status")
+	n := r.N(60, 2000)
+	silent, err := litefwd.Listen(0, func(c net.Conn, idx int) {
+		buf := make([]byte, 1024)
+		_ = c.SetReadDeadline(time.Now().Add(10 * time.Second))
+		_, _ = c.Read(buf)
+		_ = c.Close()
+	})
+	if err != nil {
+		r.Inconclusive("cannot listen: " + err.Error())
+		return
+	}
+	defer silent.Close()
+	refused, err := litefwd.ReserveRefused(0)
+	if err != nil {
+		r.Inconclusive("cannot reserve port: " + err.Error())
+		return
+	}
+	defer refused.Release()
+	var mu sync.Mutex
+	var got []byte
+	var eof chan struct{}
+	rec, err := litefwd.Listen(0, func(c net.Conn, idx int) {
+		defer c.Close()
+		_ = c.SetDeadline(time.Now().Add(20 * time.Second))
+		var b []byte
+		tmp := make([]byte, 2048)
+		answered := false
+		for {
+			nr, err := c.Read(tmp)
+			b = append(b, tmp[:nr]...)
+			if p := parseStream(b); !answered && p.ok {
+				if l, k := litefwd.ReadVarInt(b[p.frameEnd:]); k > 0 && len(b) >= p.frameEnd+k+int(l) {
+					js := `{"version":{"name":"ref","protocol":765},"players":{"max":1,"online":0},"description":{"text":"ok"}}`
+					pl := litefwd.AppendVarInt(nil, 0)
+					pl = litefwd.AppendVarInt(pl, int32(len(js)))
+					pl = append(pl, js...)
+					_, _ = c.Write(litefwd.FramePayload(pl))
+					answered = true
+				}
+			}
+			if err != nil {
+				break
+			}
+		}
+		mu.Lock()
+		got = b
+		mu.Unlock()
+		close(eof)
+	})
+	if err != nil {
+		r.Inconclusive("cannot listen: " + err.Error())
+		return
+	}
+	defer rec.Close()
+	judged, second := 0, 0
+	for i := 0; i < n; i++ {
+		c := genCase(rng, false)
+		c.Next = 1
+		c.First = []string{"", "silent", "silent", "refused"}[rng.Intn(4)]
+		c.SlowAddr, c.ClientBody, c.BackendBody, c.Pipelined, c.ReadChunk = false, 0, 0, 0, 0
+		if c.Exotic {
+			c.Exotic = false
+		}
+		c.Frame = litefwd.Handshake{Protocol: c.Protocol, Address: c.Address, Port: c.Port, Next: 1}.Frame()
+		var backends []string
+		switch c.First {
+		case "silent":
+			backends = append(backends, fmt.Sprintf("%s:%d", c.FirstHost, silent.Port))
+		case "refused":
+			backends = append(backends, fmt.Sprintf("%s:%d", c.FirstHost, refused.Port))
+		}
+		backends = append(backends, fmt.Sprintf("%s:%d", c.GoodHost, rec.Port))
+		routes := []config.Route{{Host: []string{"*"}, Backend: backends, ProxyProtocol: c.PP, ModifyVirtualHost: c.MVH, TCPShieldRealIP: c.TS, CachePingTTL: configutil.Duration(-1)}}
+		r.LogCase(c)
+		mu.Lock()
+		got, eof = nil, make(chan struct{})
+		mu.Unlock()
+		ca, _ := net.ResolveTCPAddr("tcp", c.ClientAddr)
+		sm := lite.NewStrategyManager()
+		fin := make(chan struct{})
+		var resErr error
+		t0 := time.Now().Unix()
+		s := litefwd.Start(litefwd.Options{Routes: routes, SM: sm, ClientAddr: ca, OnStatus: func(s *litefwd.Session, conn netmc.MinecraftConn, hs *packet.Handshake, pc *proto.PacketContext) {
+			defer close(fin)
+			req := &proto.PacketContext{Direction: proto.ServerBound, Protocol: proto.Protocol(hs.ProtocolVersion), PacketID: 0, Packet: &packet.StatusRequest{}, Payload: []byte{0x00}}
+			_, _, resErr = lite.ResolveStatusResponseWithGeneration(5*time.Second, 0, routes, s.Rec.Logger(), conn, hs, pc, req, sm)
+			_ = conn.Close()
+		}})
+		_, _ = s.Client.Write(c.Frame)
+		ok, _ := lib.Returns(40*time.Second, func() { <-fin; <-eof; <-s.LoopReturned() })
+		_ = s.Client.Close()
+		r.Eval(1)
+		if !ok {
+			r.Inconclusive("status case did not complete within the watchdog")
+			continue
+		}
+		t1 := time.Now().Unix()
+		mu.Lock()
+		b := got
+		mu.Unlock()
+		if resErr != nil {
+			r.Inconclusive("status request failed although the last backend answers: " + resErr.Error())
+			continue
+		}
+		o := outcome{backendGot: b, clientBody: litefwd.FramePayload([]byte{0x00}), t0: t0, t1: t1, fwd: true, fwdTo: fmt.Sprintf("%s:%d", c.GoodHost, rec.Port), conns: 1}
+		w := &worker{good: rec}
+		vs, _ := judge(w, c, o)
+		for _, v := range vs {
+			v.wit["path"] = "status (ResolveStatusResponseWithGeneration)"
+			r.Violation(v.sig, v.what+" [status path]", v.wit)
+		}
+		judged++
+		if c.First != "" {
+			second++
+		}
+		r.Distinct("status|" + c.key())
+	}
+	r.Set("status_path_cases_judged", judged)
+	r.Set("status_path_second_backend_asked", second)
 }
